@@ -45,6 +45,8 @@ def items(b, tag):
                                                      b.block([b.expr_stmt(b.bin('Subtract', v('a'), n(1))), req(v('c'), b.string('m'))]))),
         'struct': lambda: b.supart(b.struct('T' + tag, [(b.ty('Uint', 8), 'a'), (b.ty('Uint', 256), 'bq'), (b.ty('Uint', 8), 'c')])),
         'empty_contract': lambda: fam.contract_with(b, [], name='Empty' + tag),
+        # multi-byte identifiers: byte offsets and character counts differ behind this item
+        'struct_unicode': lambda: b.supart(b.struct('Größe' + tag, [(b.ty('Uint', 8), 'später'), (b.ty('Uint', 256), 'naïve_名前'), (b.ty('Uint', 8), 'ça')])),
     }
     return out
 
@@ -98,11 +100,12 @@ def job(chk, todo):
         if chk.states % 50 == 0:
             chk.sample({'items': label, 'detectors': len(DETECTORS)})
     # translator validation: a sample of compositions natively
-    for (k1, k2, place, value) in todo[:2]:
+    uni = [t for t in todo if 'unicode' in t[0] + t[1]]
+    for (k1, k2, place, value) in todo[:2] + [t for t in uni if t not in todo[:2]]:
         b = sol.TreeBuilder()
         i1, i2 = items(b, 'A')[k1](), items(b, 'B')[k2]()
         whole, a1, a2 = compose(b, place, i1, i2, value)
-        for d in DETECTORS[chk.seed % 3::3]:
+        for d in (DETECTORS if 'unicode' in k1 + k2 else DETECTORS[chk.seed % 3::3]):
             native_compose(chk, d, 'validation %s+%s' % (k1, k2), whole, a1, a2, None, validate_only=True)
 
 
@@ -129,9 +132,16 @@ def native_compose(chk, d, label, whole, a1, a2, why, validate_only=False):
         seg = bytes(c if c in (10, 13) else 32 for c in raw[s:e_])
         return (raw[:s] + seg + raw[e_:]).decode()
     t1, t2 = blank(item_idx[1]), blank(item_idx[0])
-    jobs = [['detect', d, chk.native.file(t)] for t in (text, t1, t2)]
+    files = [chk.native.file(t) for t in (text, t1, t2)]
+    jobs = [['detect', d, f] for f in files] + [['analyze', oracle.CATEGORY[d], d, f] for f in files]
     res = chk.native.run(jobs)
     chk.validated += 1
+    # the statement is about reported LINES: the same composition through the compiled analyze_for_*
+    lines = [None if r[0] != 'OK' else {int(x) for x in r[1].split(',') if x} for r in res[3:]]
+    if None not in lines and lines[0] != (lines[1] | lines[2]):
+        chk.violation('%s:compose:lines' % d, '%s on `%s`: the whole file reports lines %r, the items alone (same positions) %r and %r' % (
+            d, label, sorted(lines[0]), sorted(lines[1]), sorted(lines[2])), {'job': 'analyze', 'detector': d, 'source': text, 'item1_alone': t1, 'item2_alone': t2})
+        return
     def starts_of(r):
         return None if r[0] != 'OK' else {int(x.split(':')[0]) for x in r[1].split(',') if x}
     sw, s1, s2 = starts_of(res[0]), starts_of(res[1]), starts_of(res[2])
@@ -155,6 +165,7 @@ def body(chk):
     todo = []
     for k1, k2 in itertools.product(kinds, repeat=2):
         todo.append((k1, k2, 'first', '^0.8.16'))
+    unicode_first = [t for t in todo if t[0] == 'struct_unicode']
     for k1, k2 in itertools.product(['contract_rich', 'free_function', 'struct', 'contract_ctor_after_fn'], repeat=2):
         for place in ('between', 'last'):
             for value in ('^0.8.16', '0.7.6'):
@@ -162,7 +173,7 @@ def body(chk):
     if chk.quick:
         chk.rng.shuffle(todo)
         core = [t for t in todo if t[2] != 'first' or 'ctor' in t[0] + t[1]]
-        todo = (core[:40] + todo[:40])
+        todo = (core[:40] + todo[:40] + unicode_first[:6])
     chk.bounds = {'files': '%d pairs of top-level items x %d detectors' % (len(todo), len(DETECTORS)),
                   'items': kinds, 'pragma': 'before, between and after the items; versions on both sides of the 0.8.4 gate',
                   'outside': 'more than two items; items that mention each other\'s state variables (excluded by the property)'}
